@@ -601,7 +601,7 @@ func ruleR234(c *Ctx) {
 	n := 0
 	isReport := func(t types.Type) bool { return isNamed(t, pathBpmn, "gatewayProbingReport") }
 	// per node type: the fields handed to probes
-	probed := map[*types.Named]map[*types.Var]bool{}
+	probed := map[*types.Named]map[types.Object]bool{}
 	for _, f := range p.Funcs {
 		if f.Body == nil || f.Pkg.PkgPath != pathBpmn {
 			continue
@@ -623,11 +623,13 @@ func ruleR234(c *Ctx) {
 					continue
 				}
 				if k, ok := kv.Key.(*ast.Ident); ok && k.Name == "sequenceFlows" {
-					if fv := fieldOf(in, kv.Value); fv != nil {
-						if probed[T] == nil {
-							probed[T] = map[*types.Var]bool{}
+					for _, src := range resolveLocalExpr(in, f, kv.Value) {
+						if o := r234source(in, src); o != nil {
+							if probed[T] == nil {
+								probed[T] = map[types.Object]bool{}
+							}
+							probed[T][o] = true
 						}
-						probed[T][fv] = true
 					}
 				}
 			}
@@ -698,7 +700,7 @@ func ruleR234(c *Ctx) {
 			n++
 			var same bool
 			for _, src := range resolveLocalExpr(in, f, ix.X) {
-				if fv := fieldOf(in, src); fv != nil && probed[T][fv] {
+				if o := r234source(in, src); o != nil && probed[T][o] {
 					same = true
 				}
 			}
@@ -1926,5 +1928,121 @@ func ruleR251(c *Ctx) {
 	}
 	if n == 0 {
 		c.Missing("decision wait", "no select that receives an ErrHandler was found")
+	}
+}
+
+// r234source: what a list expression names — the field it reads, or the function whose result it is.
+func r234source(in *types.Info, e ast.Expr) types.Object {
+	if fv := fieldOf(in, e); fv != nil {
+		return fv
+	}
+	if cl, ok := unparen(e).(*ast.CallExpr); ok {
+		if fn := callee(in, cl); fn != nil {
+			return fn
+		}
+	}
+	return nil
+}
+
+func init() {
+	register(&Rule{ID: "R254", Title: "a reader takes what was written: an UnmarshalXML method does not rewrite a text attribute it has decoded (no assignment to a string field of the receiver computed from that field, whitespace trimming aside)", Min: 0, Run: ruleR254})
+	register(&Rule{ID: "R255", Title: "the decoding alias decodes the whole element: the local type an UnmarshalXML method decodes into (`type a T`) has no UnmarshalXML of its own — none promoted from an embedded field either", Min: 4, Run: ruleR255})
+}
+
+func ruleR254(c *Ctx) {
+	p := c.P
+	what := "parse is the inverse of marshal: MarshalXML writes the attribute verbatim, so a reader that 'repairs' it (a unit appended to a unit-less timeout) makes the re-parsed model differ from the one that was written — and the engine behave differently on the two (no timeout vs. a timeout that fires)"
+	for _, f := range p.Funcs {
+		if f.Body == nil || f.Obj == nil || f.Obj.Name() != "UnmarshalXML" || f.Pkg.PkgPath != pathSchema {
+			continue
+		}
+		in := info(f)
+		rv := f.Obj.Type().(*types.Signature).Recv()
+		inspectNoLit(f.Body, func(m ast.Node) bool {
+			as, ok := m.(*ast.AssignStmt)
+			if !ok {
+				return true
+			}
+			for i, l := range as.Lhs {
+				fv := fieldOf(in, l)
+				if fv == nil {
+					continue
+				}
+				if b, ok := fv.Type().Underlying().(*types.Basic); !ok || b.Info()&types.IsString == 0 {
+					continue
+				}
+				if r := rootIdent(l); r == nil || objOf(in, r) != types.Object(rv) {
+					continue
+				}
+				rewrites := as.Tok != token.ASSIGN && as.Tok != token.DEFINE
+				if !rewrites && i < len(as.Rhs) && len(as.Lhs) == len(as.Rhs) {
+					// t.X = g(t.X): computed from itself
+					self := mentionsDeep(as.Rhs[i], func(z ast.Node) bool {
+						e, ok := z.(ast.Expr)
+						return ok && sameRef(in, e, l)
+					})
+					if self {
+						rewrites = true
+						if cl, ok := unparen(as.Rhs[i]).(*ast.CallExpr); ok {
+							if fn := callee(in, cl); fn != nil && fn.Pkg() != nil && fn.Pkg().Path() == "strings" && strings.HasPrefix(fn.Name(), "Trim") && fn.Name() != "TrimPrefix" && fn.Name() != "TrimSuffix" {
+								rewrites = false
+							}
+						}
+					}
+				}
+				if rewrites {
+					c.Bad(f, as, "decoded text "+exprString(l)+" rewritten in "+f.QName(), what, exprString(l)+" "+as.Tok.String()+" ... at "+c.pos(as))
+				}
+			}
+			return true
+		})
+	}
+}
+
+func ruleR255(c *Ctx) {
+	p := c.P
+	what := "`type a T; var out a; d.DecodeElement(&out, &start)` decodes the fields of T with the default decoder because the new type has none of T's methods. It still has the methods promoted from T's embedded fields: if an embedded base type has a live UnmarshalXML, DecodeElement calls that one and only the base part is filled — a diagram loses its plane, a shape keeps nothing but its id"
+	n := 0
+	for _, f := range p.Funcs {
+		if f.Body == nil || f.Obj == nil || f.Obj.Name() != "UnmarshalXML" || f.Pkg.PkgPath != pathSchema {
+			continue
+		}
+		in := info(f)
+		inspectNoLit(f.Body, func(m ast.Node) bool {
+			cl, ok := m.(*ast.CallExpr)
+			if !ok || len(cl.Args) == 0 {
+				return true
+			}
+			fn := callee(in, cl)
+			if fn == nil || fn.Pkg() == nil || fn.Pkg().Path() != "encoding/xml" || (fn.Name() != "DecodeElement" && fn.Name() != "Decode") {
+				return true
+			}
+			t := in.TypeOf(cl.Args[0])
+			pt, ok := t.(*types.Pointer)
+			if !ok {
+				return true
+			}
+			nt, ok := pt.Elem().(*types.Named)
+			if !ok || nt.Obj().Parent() == nt.Obj().Pkg().Scope() {
+				return true // not a function-local type
+			}
+			n++
+			ms := types.NewMethodSet(pt)
+			sel := ms.Lookup(nt.Obj().Pkg(), "UnmarshalXML")
+			wit := "the method set of *" + nt.Obj().Name() + " has no UnmarshalXML"
+			if sel != nil {
+				wit = "*" + nt.Obj().Name() + " has UnmarshalXML promoted from " + typeString(sel.Recv()) + " (path " + fmt.Sprint(sel.Index()) + "): the decoder calls it instead of decoding the fields"
+				if so, ok := sel.Obj().(*types.Func); ok {
+					if r := recvNamed(so); r != nil {
+						wit = "*" + nt.Obj().Name() + " has UnmarshalXML promoted from the embedded " + r.Obj().Name() + ": the decoder calls it instead of decoding the fields"
+					}
+				}
+			}
+			c.Check(sel == nil, f, cl, "decoding alias "+nt.Obj().Name()+" in "+f.QName(), what, wit)
+			return true
+		})
+	}
+	if n == 0 {
+		c.Missing("decoding aliases", "no UnmarshalXML method that decodes into a function-local type was found")
 	}
 }
